@@ -68,26 +68,45 @@ Calls(xs) == LET D == DistinctOf(xs)
 (* both readings are admitted (they differ only when the supports are equal and  *)
 (* the modal dosage differs: 0 or 1).                                            *)
 Geq(num, n, th) == num * th[2] >= th[1] * n
-IncFlagsK(chs, P, genotypeReading, th) ==
-  LET C == Len(chs)
-      Q == {c \in 1..C : LET u == CHOOSE v \in ModeSupports(chs[c]) : TRUE
-                         IN  Geq(MassOf(chs[c], u), Len(chs[c]), th)}
+MinOf(S) == CHOOSE x \in S : \A y \in S : x <= y
+(* the chains that are compared: mass of the chain's mode support >= theta        *)
+Qualifying(chs, th) == {c \in 1..Len(chs) : LET u == CHOOSE v \in ModeSupports(chs[c]) : TRUE
+                                            IN  Geq(MassOf(chs[c], u), Len(chs[c]), th)}
+RECURSIVE ProdSeq(_, _)
+ProdSeq(ch, n) == IF n = 0 THEN {<<>>} ELSE {Append(r, x) : r \in ProdSeq(ch, n - 1), x \in ch[n]}
+(* firstSupport = FALSE: the documented functional (bound = ploidy P).             *)
+(* firstSupport = TRUE : the reading of the open finding D8 (KNOWN_FINDINGS.json): *)
+(* the bound is the number of distinct haplotypes in the mode support of the FIRST *)
+(* compared chain.  It is never admitted; it only decides whether a mismatch is    *)
+(* the listed defect or a different failure.                                       *)
+IncFlagsGen(chs, P, firstSupport, genotypeReading, th) ==
+  LET Q == Qualifying(chs, th)
+      qs == SelectSeq([c \in 1..Len(chs) |-> c], LAMBDA c : c \in Q)     \* the compared chains, in order
       Choice(c) == {<<cl[1], SuppOf(cl[1])>> : cl \in Calls(chs[c])}
-      All == UNION {Choice(c) : c \in Q}
-      F == {f \in [Q -> All] : \A c \in Q : f[c] \in Choice(c)}
+      ch == [j \in 1..Len(qs) |-> Choice(qs[j])]
+      (* every way of picking one admissible <<modal genotype, mode support>> per compared chain *)
+      F == ProdSeq(ch, Len(qs))
       Flag(f, bySupport) ==
-        LET items == IF bySupport THEN {f[c][2] : c \in Q} ELSE {f[c][1] : c \in Q}
-            union == UNION {f[c][2] : c \in Q}
+        LET items == IF bySupport THEN {f[j][2] : j \in 1..Len(qs)} ELSE {f[j][1] : j \in 1..Len(qs)}
+            union == UNION {f[j][2] : j \in 1..Len(qs)}
+            bound == IF firstSupport THEN Cardinality(f[1][2]) ELSE P
         IN  IF Cardinality(items) <= 1 THEN 0
-            ELSE IF Cardinality(union) > P THEN 2 ELSE 1
+            ELSE IF Cardinality(union) > bound THEN 2 ELSE 1
   IN  IF Q = {} THEN {0}
       ELSE {Flag(f, TRUE) : f \in F} \cup (IF genotypeReading THEN {Flag(f, FALSE) : f \in F} ELSE {})
+IncFlagsK(chs, P, genotypeReading, th) == IncFlagsGen(chs, P, FALSE, genotypeReading, th)
 IncFlags(chs, P, kind, th) == IncFlagsK(chs, P, kind # "hap", th)
+IncFlagsD8(chs, P, kind, th) == IF kind = "hap" THEN IncFlagsGen(chs, P, TRUE, FALSE, th) ELSE IncFlags(chs, P, kind, th)
+(* the compared chains only, in their order                                        *)
+OnlyChains(chs, Q) == LET idx == SelectSeq([c \in 1..Len(chs) |-> c], LAMBDA c : c \in Q)
+                      IN  [j \in 1..Len(idx) |-> chs[idx[j]]]
 
 (* ---- the summary of one individual -------------------------------------------------- *)
 (* chs[c] = the retained canonical genotypes of chain c, P = ploidy, K = number of   *)
 (* allele labels, thetas = sequence of <<num, den>> incongruence thresholds          *)
-SummaryOf(chs, P, K, kind, thetas) ==
+(* withRank = FALSE: loci whose genotype ranks do not fit TLC's 32-bit integers     *)
+(* (the G-ordered array cannot be materialised there either): arr / ranks omitted   *)
+SummaryOfG(chs, P, K, kind, thetas, withRank) ==
   LET xs == ConcatChains(chs, Len(chs))
       D == DistinctOf(xs)
   IN  [ n |-> Len(xs),
@@ -100,10 +119,12 @@ SummaryOf(chs, P, K, kind, thetas) ==
                            : u \in ModeSupports(xs)},
         acount |-> [a \in 1..K |-> AlleleNum(xs, a - 1)],
         occ |-> [a \in 1..K |-> OccNum(xs, a - 1)],
-        arr |-> {<<Rank(g), CountIn(xs, g)>> : g \in D},
-        arrLen |-> Choose(K + P - 1, P),
-        ranks |-> [j \in 1..Len(xs) |-> Rank(xs[j])],
-        inc |-> [q \in 1..Len(thetas) |-> IncFlags(chs, P, kind, thetas[q])] ]
+        arr |-> IF withRank THEN {<<Rank(g), CountIn(xs, g)>> : g \in D} ELSE {},
+        arrLen |-> IF withRank THEN Choose(K + P - 1, P) ELSE 0,
+        ranks |-> IF withRank THEN [j \in 1..Len(xs) |-> Rank(xs[j])] ELSE <<>>,
+        inc |-> [q \in 1..Len(thetas) |-> IncFlags(chs, P, kind, thetas[q])],
+        incD8 |-> [q \in 1..Len(thetas) |-> IncFlagsD8(chs, P, kind, thetas[q])] ]
+SummaryOf(chs, P, K, kind, thetas) == SummaryOfG(chs, P, K, kind, thetas, TRUE)
 
 (* retained canonical, relabelled genotypes of chain c of a stored trace t[c][s]     *)
 (* (C chains x S steps), burn-in burn, labels lb (new label of allele a = lb[a+1])  *)
